@@ -1211,7 +1211,9 @@ func c14Sync(c *an.Ctx) {
 				}
 				return "the load error returned"
 			}
-			if load != "ok" || f.I("len(fc.Profiles)") == 0 || f.I("len(fc.Devices)") == 0 {
+			// a cache without profiles is empty; one with profiles and no devices is not (accounts that only use
+			// automatically created devices): its profiles are what the database knew when it wrote the cache (F58)
+			if load != "ok" || f.I("len(fc.Profiles)") == 0 {
 				if len(sets) == 0 && o.RetString() == "nil" && st["p0.syncTime"] == "" {
 					return ""
 				}
